@@ -80,7 +80,7 @@ func init() {
 		Store: storeWorker,
 		Parts: func(tier string, seed uint64) []part {
 			if tier == "quick" {
-				return []part{{Name: "store", Count: int(envInt("VERIF_C04_RECORDS", 4800))}, {Name: "short", Count: int(envInt("VERIF_C04_SHORT", 192))}, {Name: "history", Count: 4}, {Name: "scale", Count: props.ScaleJobs()}}
+				return []part{{Name: "store", Count: int(envInt("VERIF_C04_RECORDS", 2800))}, {Name: "short", Count: int(envInt("VERIF_C04_SHORT", 192))}, {Name: "history", Count: 4}, {Name: "scale", Count: props.ScaleJobs()}}
 			}
 			return []part{{Name: "store", Count: int(envInt("VERIF_C04_RECORDS", 12000))}, {Name: "short", Count: int(envInt("VERIF_C04_SHORT", 200))}, {Name: "history", Count: 8}, {Name: "scale", Count: props.ScaleJobs()}}
 		},
@@ -128,7 +128,7 @@ func init() {
 	propDefs["C11"] = &PropDef{
 		ID: "C11", Level: "exploration",
 		Gen:   props.GenC11,
-		Parts: schedParts("C11", nil, 60000, 8000, 2000000, 200000),
+		Parts: schedParts("C11", nil, 150000, 12000, 2500000, 250000),
 		Rule:  "runs = scenarios in the message-pump shape: 1-3 simulated caller goroutines copy records into re-used ring buffers (old bytes left beyond the record), decode them, keep the decoded values together with independent expected copies, append Marshal output to an output log, and - as injected faults at scheduler-chosen instants - overwrite the ring buffers (00 / FF / increment / random), overwrite the byte slices of a marshalled value and overwrite returned bytes. After every such event all live decoded values are re-compared; input bytes, the prefix of the output log (in its original backing array) and the marshalled value are compared with snapshots. Non-trivial runs / distinct as for C07",
 		Assumptions: []string{
 			"aliasing is observed through content: a decoded string that aliases the input changes when the buffer is overwritten with a different pattern; patterns that happen to write identical bytes cannot expose it (four different patterns are used)",
@@ -139,7 +139,7 @@ func init() {
 	propDefs["C10"] = &PropDef{
 		ID: "C10", Level: "exploration", Echo: true,
 		Gen:   props.GenC10,
-		Parts: schedParts("C10", nil, 60000, 6000, 2000000, 150000),
+		Parts: schedParts("C10", nil, 160000, 6000, 3000000, 100000),
 		Rule:  "runs = histories on one long-lived instance: 1-3 simulated caller goroutines, 4-8 operations each: decode into a fresh target, decode into a re-used target (previously holding longer / shorter / differently populated values, so capacity is re-used with stale elements beyond len), decode a torn record (aborted operation), Marshal; sync.Pool policy of the map key scratch owned by the simulator (recycled-dirty 70% / fresh / dropped). Oracles: fresh decodes equal the solo decode on a brand-new instance (history independence); a re-used target equals an exactly-sized deep copy of its prior value after decoding the same bytes (physical twin); slices present in the data hold exactly the encoded elements; on the merge family the executable merge rules of the statement. Non-trivial / distinct as for C07, plus single-task histories count as non-trivial when a target or pooled scratch was re-used",
 		Assumptions: []string{
 			"where the statement is silent (struct-valued map entries under an existing key) no expectation is encoded: the merge model is only applied to types whose map values are scalars, strings or pointers to scalars, and only when the fresh round trip of the value is the identity",
